@@ -52,6 +52,23 @@ EncodeUrl(be, s) ==
                      query == IF u.query # <<>> THEN Q(be, QUERY_REQUOTER, u.query) ELSE u.query
                      frag == IF u.fragment # <<>> THEN Q(be, FRAGMENT_REQUOTER, u.fragment) ELSE u.fragment
                  IN OK(Url(u.scheme, netloc, path, query, frag))
+\* the entries encode_url PRE-FILLS in the new object's cache (the eager route); every other constructor leaves the cache
+\* empty and the same entries are derived later by _cache_netloc -> split_netloc(self._netloc) (the lazy route)
+EagerCache(be, s) ==
+  LET sp == SplitUrl(s) IN
+  IF ~IsOK(sp) \/ sp.ok.netloc = <<>> THEN [none |-> TRUE]
+  ELSE LET u == sp.ok
+           complex == HasAny(u.netloc, {COLON, AT, LBR})
+           parts == IF complex THEN SplitNetloc(u.netloc) ELSE OK([user |-> NONE, password |-> NONE, host |-> SOME(u.netloc), port |-> NONE]) IN
+       IF ~IsOK(parts) THEN [none |-> TRUE]
+       ELSE LET p == parts.ok
+                eh == EncodeHost(IF IsNone(p.host) THEN <<>> ELSE Get(p.host), FALSE) IN
+            IF ~IsOK(eh) \/ (IsNone(p.host) /\ u.scheme \in RequiresHost) THEN [none |-> TRUE]
+            ELSE [raw_host |-> SOME(IF Has(eh.ok, LBR) THEN SubSeq(eh.ok, 2, Len(eh.ok) - 1) ELSE eh.ok),     \* '' for an empty host
+                  explicit_port |-> p.port,
+                  raw_user |-> IF IsNone(p.user) /\ IsNone(p.password) THEN NONE
+                               ELSE IF ~IsNone(p.user) /\ Get(p.user) # <<>> THEN SOME(Q(be, REQUOTER, Get(p.user))) ELSE p.user,
+                  raw_password |-> IF ~IsNone(p.password) /\ Get(p.password) # <<>> THEN SOME(Q(be, REQUOTER, Get(p.password))) ELSE p.password]
 PreEncodedUrl(s) == SplitUrl(s)
 Ctor(be, s, encoded) == IF encoded THEN PreEncodedUrl(s) ELSE EncodeUrl(be, s)
 
